@@ -5,7 +5,9 @@ import Driver.Util
 /-
 C03 driver channel (trace monitor).
 
-  c03 mon <cmd> <spec> <pre> <run>
+  c03 mon <cmd> <spec> <pre> <run> [<repl>]
+     repl  = replacement table of a snapshot-replacing run: `<old>><new>` pairs separated by `.` (`-` = none; snapshot file
+             numbers of `pre` / `run`): snapshot `new` written by the run is the rewritten / repaired successor of `old`
      cmd   = backup | forget | prune | prune-instant | merge | copy | rewrite | repairsnap | repairidx | repairidx-readall |
              config | key | keyrm   (copy: the repository is the destination)
      spec  = scenario description (only read by the harness)
@@ -23,7 +25,9 @@ C03 driver channel (trace monitor).
      packs in the order they were indexed (the order inside the index files) with `maxCount` = the generated
      `C03_INDEXER_MAX_COUNT`; the index files it writes must list the same groups of packs as the observed ones.
   observation: `ok` iff the pre-state is consistent, the state after EVERY prefix of `run` is consistent
-  (Repo.firstBad = none), `run` is in the phase language of the command and — for the commands that publish new packs
+  (Repo.firstBad = none), no prefix has LOST a snapshot (Repo.firstLost = none over Repo.mustKeep: every snapshot of the
+  pre-state that the run does not remove on purpose — removed without a successor in `repl` — is present as itself or as
+  its successor; else `bad:lost<k>`), `run` is in the phase language of the command and — for the commands that publish new packs
   (backup, copy, merge, rewrite, repairsnap) — in the writer language ((a) below); else `bad:…`.
 -/
 namespace Driver.C03
@@ -84,7 +88,14 @@ def writerLang : List Nat → List Op → Bool
 /-- commands whose new index files list exactly the packs the run wrote (packer → writer → indexer, `publish` protocol) -/
 def publishCmds : List String := ["backup", "copy", "merge", "rewrite", "repairsnap"]
 
-def monitor (cmd : String) (pre run : List Op) : String :=
+def parseRepl (s : String) : Option (List (Nat × Nat)) :=
+  (splitList "." s).mapM (fun t => match t.splitOn ">" with
+    | [a, b] => match a.toNat?, b.toNat? with
+      | some a, some b => some (a, b)
+      | _, _ => none
+    | _ => none)
+
+def monitor (cmd : String) (pre run : List Op) (succ : List (Nat × Nat) := []) : String :=
   let r0 := applyAll {} pre
   if !consistent r0 then "bad:pre-inconsistent" else
   match phasesOf (if cmd = "keyrm" then "key" else cmd) with
@@ -93,6 +104,9 @@ def monitor (cmd : String) (pre run : List Op) : String :=
     match firstBad r0 run with
     | some k => s!"bad:prefix{k}"
     | none =>
+      match firstLost succ (mustKeep r0 succ run) r0 run with
+      | some k => s!"bad:lost{k}"
+      | none =>
       if !matchPhases phs (run.map Op.kind) then "bad:phase"
       else if publishCmds.contains cmd && !writerLang [] run then "bad:writer-language"
       else "ok"
@@ -136,6 +150,10 @@ def handle : List String → String
     match parseOps pre, parseOps run with
     | some pre, some run => monitor cmd pre run
     | _, _ => "bad-op"
+  | ["mon", cmd, _spec, pre, run, repl] =>
+    match parseOps pre, parseOps run, parseRepl repl with
+    | some pre, some run, some succ => monitor cmd pre run succ
+    | _, _, _ => "bad-op"
   | _ => "bad-op"
 
 end Driver.C03
